@@ -34,8 +34,10 @@ type rangeCase struct {
 	D   int     `json:"d"`   // node of DeleteRange (0 = none)
 	Lo  int     `json:"lo"`
 	Hi  int     `json:"hi"`
+	W   []int   `json:"w"`   // keys (1..3) written again at d after the DeleteRange
 	// filled from TLC
-	Reads [][]int `json:"reads"` // [node-1][key-1] -> node whose value is read / 0 / -1
+	Reads  [][]int `json:"reads"`  // [node-1][key-1] -> node whose value is read / 0 / -1
+	UReads []int   `json:"ureads"` // [key-1]: the same requests on an unversioned instance (every node reads the same)
 	// DRFails: a key of the DeleteRange interval is in merge conflict at d; the outcome of such a
 	// DeleteRange is outside the property (the store deletes the keys scanned before the conflict
 	// and reports success), so the case is not replayed
@@ -73,7 +75,7 @@ func evalRangeCases(c *Ctx, cases []*rangeCase) (states, trans int64) {
 			if i > 0 {
 				sb.WriteString(",\n")
 			}
-			fmt.Fprintf(&sb, "[par |-> %s, fam |-> %s, d |-> %d, lo |-> %d, hi |-> %d]", tlaPar(rc.Par), tlaSeqInts(rc.Fam), rc.D, rc.Lo, rc.Hi)
+			fmt.Fprintf(&sb, "[par |-> %s, fam |-> %s, d |-> %d, lo |-> %d, hi |-> %d, w |-> %s]", tlaPar(rc.Par), tlaSeqInts(rc.Fam), rc.D, rc.Lo, rc.Hi, tlaSeqInts(rc.W))
 		}
 		sb.WriteString("\n>>\n====\n")
 		cfg := fmt.Sprintf("SPECIFICATION Spec\nCONSTANTS\n  KeyPos <- KeyPosDef\n  NumEndpoints = %d\n  LastFoundBug = FALSE\nINVARIANTS AllClaims Emit\nCHECK_DEADLOCK FALSE\n",
@@ -87,6 +89,7 @@ func evalRangeCases(c *Ctx, cases []*rangeCase) (states, trans int64) {
 		PrintedJSON(r.Output, func(raw []byte) {
 			var out []struct {
 				Reads   [][]int `json:"reads"`
+				UReads  []int   `json:"ureads"`
 				DRFails bool    `json:"drfails"`
 			}
 			if err := json.Unmarshal(raw, &out); err != nil || len(out) != end-off {
@@ -94,6 +97,7 @@ func evalRangeCases(c *Ctx, cases []*rangeCase) (states, trans int64) {
 			}
 			for i := range out {
 				cases[off+i].Reads = out[i].Reads
+				cases[off+i].UReads = out[i].UReads
 				cases[off+i].DRFails = out[i].DRFails
 			}
 			got = true
@@ -211,54 +215,169 @@ func strsEqual(a, b []string) bool {
 	return true
 }
 
+// Growth (gaps C05-1 .. C05-5, C01-4, C01-5): what a family's index selects.
+//   f%4 == 2   the writes of a node are sent as one POST keyvalues (protobuf batch)
+//   f%8 == 3   values written at even nodes are empty
+//   f%4 == 1   the same requests are also sent to the unversioned instance kvu (DeleteRange included)
+//   f%4 == 3   after the DeleteRange at d the keys rc.W are written again at d: through the store's
+//              PutRange (f%8 == 7: a put over the version's own tombstone) or POST key
+func c05Batch(f int) bool     { return f%4 == 2 }
+func c05Unv(f int) bool       { return f%4 == 1 }
+func c05PutRange(f int) bool  { return f%8 == 7 }
+func c05ValueOf(f, k int) string {
+	if f%8 == 3 && k%2 == 0 {
+		return ""
+	}
+	return c05Value(k)
+}
+
+// c05JSONOf is how the JSON formats show a value (an empty value is shown as {}).
+func c05JSONOf(f, k int) string {
+	if v := c05ValueOf(f, k); v != "" {
+		return v
+	}
+	return "{}"
+}
+
+// known finding: a key whose value is empty is an entry of the store (keys, keyrange, HEAD and the
+// store's scans list it) but GET key answers 404 and the value formats of keyrangevalues leave it out
+const c05EmptyValue = "keyvalue-empty-value-listed-not-read"
+
 // c05Shape replays all cases that share one DAG shape.
 func c05Shape(c *Ctx, run *ev.Run, s *dagm.Sess, par [][]int, cases []*rangeCase, nq *int64, shapeIdx int) {
 	names := []string{"a", "ab", "b"}
 	n := len(par)
+	post := func(u, inst, key, val string) error {
+		if inst == "kvr" {
+			return s.N.Call("kv.rawput", map[string]string{"data": inst, "uuid": u, "key": key, "value": val}, nil)
+		}
+		if val == "" {
+			// the node's plain http op hands a body-less request a nil Body, which no HTTP server does:
+			// an empty value goes through the call that delivers http.NoBody
+			var res struct {
+				Status int    `json:"status"`
+				Body   string `json:"body"`
+			}
+			if err := s.N.Call("c20.http", map[string]string{"method": "POST", "url": "/api/node/" + u + "/" + inst + "/key/" + key}, &res); err != nil {
+				return err
+			}
+			if res.Status != 200 {
+				return fmt.Errorf("POST key (empty value): %d %s", res.Status, res.Body)
+			}
+			return nil
+		}
+		r, err := s.N.HTTP("POST", "/api/node/"+u+"/"+inst+"/key/"+key, []byte(val))
+		return okStatus(r, err, "POST key")
+	}
 	err := s.BuildShape(par, func(k int) error {
 		if k == 1 {
 			if err := s.NewInstance(1, "keyvalue", "kv", nil); err != nil {
 				return err
 			}
+			if err := s.NewInstance(1, "keyvalue", "kvu", map[string]string{"versioned": "false"}); err != nil {
+				return err
+			}
+			// kvr is written and read only through the store API with a storage.DataContext
+			if err := s.NewInstance(1, "keyvalue", "kvr", map[string]string{"versioned": "false"}); err != nil {
+				return err
+			}
 		}
 		u := s.NodeUUID(len(s.UUIDs))
 		for f, rc := range cases {
+			insts := []string{"kv"}
+			if c05Unv(f) {
+				insts = append(insts, "kvu", "kvr")
+			}
+			var batch proto.KeyValues
 			for j, name := range names {
 				switch digit(rc.Fam[j], k) {
 				case 1:
-					r, err := s.N.HTTP("POST", "/api/node/"+u+"/kv/key/"+famKey(f, name), []byte(c05Value(k)))
-					if err != nil {
-						return err
+					if c05Batch(f) {
+						batch.Kvs = append(batch.Kvs, &proto.KeyValue{Key: famKey(f, name), Value: []byte(c05ValueOf(f, k))})
+						continue
 					}
-					if r.Status != 200 {
-						return fmt.Errorf("POST key: %d %s", r.Status, r.Bytes())
+					for _, inst := range insts {
+						if err := post(u, inst, famKey(f, name), c05ValueOf(f, k)); err != nil {
+							return err
+						}
 					}
 				case 2:
-					r, err := s.N.HTTP("DELETE", "/api/node/"+u+"/kv/key/"+famKey(f, name), nil)
-					if err != nil {
-						return err
-					}
-					if r.Status != 200 {
-						return fmt.Errorf("DELETE key: %d %s", r.Status, r.Bytes())
+					for _, inst := range insts {
+						if inst == "kvr" {
+							if err := s.N.Call("kv.rawdel", map[string]string{"data": inst, "uuid": u, "key": famKey(f, name)}, nil); err != nil {
+								return err
+							}
+							continue
+						}
+						r, err := s.N.HTTP("DELETE", "/api/node/"+u+"/"+inst+"/key/"+famKey(f, name), nil)
+						if err := okStatus(r, err, "DELETE key"); err != nil {
+							return err
+						}
 					}
 				}
 			}
+			if len(batch.Kvs) > 0 {
+				run.Add("writes_through_post_keyvalues_batches", int64(len(batch.Kvs)))
+				body, _ := pb.Marshal(&batch)
+				r, err := s.N.HTTP("POST", "/api/node/"+u+"/kv/keyvalues", body)
+				if err := okStatus(r, err, "POST keyvalues"); err != nil {
+					return err
+				}
+			}
 			if rc.D == k {
-				err := s.N.Call("kv.deleterange", map[string]string{"data": "kv", "uuid": u,
-					"lo": famKey(f, c05Endpoints[rc.Lo-1]), "hi": famKey(f, c05Endpoints[rc.Hi-1])}, nil)
-				if err != nil {
-					if _, isCall := err.(*node.CallError); !isCall {
-						return err
+				for _, inst := range insts {
+					if inst == "kvu" {
+						run.Add("deleteranges_on_unversioned_instance", 1)
 					}
-					// a DeleteRange may fail only if a key of the interval is in conflict at d
-					conflict := false
-					for j := range names {
-						if rc.Reads[k-1][j] == -1 {
-							conflict = true
+					drArgs := map[string]string{"data": inst, "uuid": u, "lo": famKey(f, c05Endpoints[rc.Lo-1]), "hi": famKey(f, c05Endpoints[rc.Hi-1])}
+					if inst == "kvr" {
+						drArgs["raw_ctx"] = "true" // the store's unversioned scan and plain deletes
+					}
+					err := s.N.Call("kv.deleterange", drArgs, nil)
+					if err != nil {
+						if _, isCall := err.(*node.CallError); !isCall {
+							return err
+						}
+						// a DeleteRange may fail only if a key of the case is in conflict at d (cases whose
+						// interval holds such a key are not replayed at all: see DRFails)
+						conflict := false
+						for j := range names {
+							if inst == "kv" && rc.Reads[k-1][j] == -1 {
+								conflict = true
+							}
+						}
+						if !conflict {
+							run.Violation("c05", c05Divergence{Kind: "deleterange-failed", Case: rc, Node: k, Endpoint: inst, Observed: err.Error()})
 						}
 					}
-					if !conflict {
-						run.Violation("c05", c05Divergence{Kind: "deleterange-failed", Case: rc, Node: k, Observed: err.Error()})
+				}
+				// writes at d after the DeleteRange
+				if len(rc.W) > 0 {
+					var ks, vs []string
+					for _, j := range rc.W {
+						ks = append(ks, famKey(f, names[j-1]))
+						vs = append(vs, c05ValueOf(f, k))
+					}
+					for _, inst := range insts {
+						if c05PutRange(f) || inst == "kvr" {
+							run.Add("putrange_after_deleterange_at_same_version", 1)
+							prArgs := map[string]interface{}{"data": inst, "uuid": u, "keys": ks, "values": vs}
+							if inst == "kvr" {
+								prArgs["raw_ctx"] = "true"
+							}
+							if err := s.N.Call("kv.putrange", prArgs, nil); err != nil {
+								if _, isCall := err.(*node.CallError); !isCall {
+									return err
+								}
+								run.Violation("c05", c05Divergence{Kind: "putrange-failed", Case: rc, Node: k, Endpoint: inst, Observed: err.Error()})
+							}
+							continue
+						}
+						for i := range ks {
+							if err := post(u, inst, ks[i], vs[i]); err != nil {
+								return err
+							}
+						}
 					}
 				}
 			}
@@ -271,179 +390,440 @@ func c05Shape(c *Ctx, run *ev.Run, s *dagm.Sess, par [][]int, cases []*rangeCase
 		d.Script = nil
 		run.Violation("c05", d)
 	}
-	allKeysWant := make([][]string, n) // for GET keys (whole space) per node
-	conflictAny := make([]bool, n)
+	type instView struct {
+		inst     string
+		allKeys  [][]string // for GET keys (whole space) per node
+		conflict []bool
+	}
+	views := []*instView{{inst: "kv", allKeys: make([][]string, n), conflict: make([]bool, n)}, {inst: "kvu", allKeys: make([][]string, n), conflict: make([]bool, n)},
+		{inst: "kvr", allKeys: make([][]string, n), conflict: make([]bool, n)}}
 	for f, rc := range cases {
-		for v := 1; v <= n; v++ {
-			u := s.UUIDs[base+v-1]
-			reads := rc.Reads[v-1]
-			// point reads first: the range oracle is defined from them
-			for j, name := range names {
-				r, err := s.N.HTTP("GET", "/api/node/"+u+"/kv/key/"+famKey(f, name), nil)
-				must(err, "GET key")
-				atomic.AddInt64(nq, 1)
-				ok := (reads[j] == 0 && r.Status == 404) || (reads[j] == -1 && r.Status != 200) ||
-					(reads[j] > 0 && r.Status == 200 && string(r.Bytes()) == c05Value(reads[j]))
-				if !ok {
-					report(c05Divergence{Kind: "point-read", Case: rc, Node: v, Endpoint: "key/" + name, Expected: reads[j], Observed: fmt.Sprintf("%d:%s", r.Status, r.Bytes())})
-				}
-				if reads[j] > 0 {
-					allKeysWant[v-1] = append(allKeysWant[v-1], famKey(f, name))
-				}
-				if reads[j] == -1 {
-					conflictAny[v-1] = true
-				}
+		for vi, view := range views {
+			if vi >= 1 && !c05Unv(f) {
+				continue
 			}
-			// every interval
-			for lo := 1; lo <= len(c05Endpoints); lo++ {
-				for hi := lo; hi <= len(c05Endpoints); hi++ {
-					var wantK []string
-					var wantKV []kvp
-					conflict := false
-					for j, name := range names {
-						if c05KeyPos[j] < lo || c05KeyPos[j] > hi {
-							continue
+			rawOnly := vi == 2
+			inst := view.inst
+			for v := 1; v <= n; v++ {
+				u := s.UUIDs[base+v-1]
+				reads := rc.Reads[v-1]
+				if vi >= 1 {
+					reads = rc.UReads // one entry per key, the same at every version
+				}
+				// point reads first: the range oracle is defined from them
+				for j, name := range names {
+					if rawOnly {
+						var g struct {
+							Found bool   `json:"found"`
+							Value string `json:"value"`
 						}
-						if reads[j] == -1 {
-							conflict = true
+						must(s.N.Call("kv.rawget", map[string]string{"data": inst, "uuid": u, "key": famKey(f, name)}, &g), "kv.rawget")
+						atomic.AddInt64(nq, 1)
+						// (the raw entry holds the bytes as given: the serialization is the datatype's business)
+						if g.Found != (reads[j] > 0) || (g.Found && g.Value != c05ValueOf(f, reads[j]) && c05ValueOf(f, reads[j]) != "") {
+							report(c05Divergence{Kind: "point-read", Case: rc, Node: v, Endpoint: inst + " store Get(DataContext) " + name, Expected: reads[j], Observed: g})
 						}
 						if reads[j] > 0 {
-							wantK = append(wantK, famKey(f, name))
-							wantKV = append(wantKV, kvp{famKey(f, name), c05Value(reads[j])})
+							view.allKeys[v-1] = append(view.allKeys[v-1], famKey(f, name))
 						}
+						continue
 					}
-					if conflict {
-						continue // a conflicted key in the interval may make the range fail
+					r, err := s.N.HTTP("GET", "/api/node/"+u+"/"+inst+"/key/"+famKey(f, name), nil)
+					must(err, "GET key")
+					atomic.AddInt64(nq, 1)
+					ok := (reads[j] == 0 && r.Status == 404) || (reads[j] == -1 && r.Status != 200) ||
+						(reads[j] > 0 && r.Status == 200 && string(r.Bytes()) == c05ValueOf(f, reads[j]))
+					if !ok && reads[j] > 0 && c05ValueOf(f, reads[j]) == "" && r.Status == 404 && run.KnownActive(c05EmptyValue) {
+						run.ReportKnown(c05EmptyValue)
+						ok = true
 					}
-					klo, khi := famKey(f, c05Endpoints[lo-1]), famKey(f, c05Endpoints[hi-1])
-					iv := [2]string{klo, khi}
-					// rotate the endpoint variants so that each (case, node, interval) runs two of them
-					sel := (f + v + lo*7 + hi) % 3
-					type variant struct {
-						name string
-						run  func() (interface{}, bool, error)
+					if !ok {
+						report(c05Divergence{Kind: "point-read", Case: rc, Node: v, Endpoint: inst + "/key/" + name, Expected: reads[j], Observed: fmt.Sprintf("%d:%s", r.Status, r.Bytes())})
 					}
-					httpKV := func(q string, parse func([]byte) ([]kvp, error)) func() (interface{}, bool, error) {
-						return func() (interface{}, bool, error) {
-							r, err := s.N.HTTP("GET", "/api/node/"+u+"/kv/keyrangevalues/"+klo+"/"+khi+q, nil)
-							if err != nil {
-								return nil, false, err
-							}
-							if r.Status != 200 {
-								return fmt.Sprintf("status %d %s", r.Status, r.Bytes()), false, nil
-							}
-							got, perr := parse(r.Bytes())
-							if perr != nil {
-								return fmt.Sprintf("unparsable: %v", perr), false, nil
-							}
-							return got, kvpEqual(got, wantKV), nil
+					if reads[j] > 0 {
+						view.allKeys[v-1] = append(view.allKeys[v-1], famKey(f, name))
+					}
+					if reads[j] == -1 {
+						view.conflict[v-1] = true
+					}
+				}
+				// every interval, plus the inverted ones (lo > hi holds no key)
+				for lo := 1; lo <= len(c05Endpoints); lo++ {
+					for hi := 1; hi <= len(c05Endpoints); hi++ {
+						if hi < lo && (f+v+lo+hi)%5 != 0 {
+							continue // a share of the inverted intervals
 						}
-					}
-					variants := []variant{
-						{"keyrange", func() (interface{}, bool, error) {
-							r, err := s.N.HTTP("GET", "/api/node/"+u+"/kv/keyrange/"+klo+"/"+khi, nil)
-							if err != nil {
-								return nil, false, err
+						var wantK []string
+						var wantKV, wantJSON []kvp
+						var devKV, devJSON []kvp // the value formats under the known finding: without the empty values
+						conflict := false
+						for j, name := range names {
+							if c05KeyPos[j] < lo || c05KeyPos[j] > hi {
+								continue
 							}
-							if r.Status != 200 {
-								return fmt.Sprintf("status %d", r.Status), false, nil
+							if reads[j] == -1 {
+								conflict = true
 							}
-							got, perr := parseJSONKeys(r.Bytes())
-							if perr != nil {
-								return string(r.Bytes()), false, nil
-							}
-							return got, strsEqual(got, wantK), nil
-						}},
-						{"keyrangevalues(protobuf)", httpKV("", parseProtoKVs)},
-						{"keyrangevalues?json=true", httpKV("?json=true", parseJSONObjOrdered)},
-						{"keyrangevalues?tar=true", httpKV("?tar=true", parseTar)},
-						{"store-range-methods", func() (interface{}, bool, error) {
-							var res struct {
-								GetRange []struct{ K, V string } `json:"getrange"`
-								Keys     []string               `json:"keys"`
-								Sent     []string               `json:"sent"`
-								Proc     []struct{ K, V string } `json:"proc"`
-								E1       string                 `json:"getrange_err"`
-								E2       string                 `json:"keys_err"`
-								E3       string                 `json:"sent_err"`
-								E4       string                 `json:"proc_err"`
-							}
-							err := s.N.Call("kv.range", map[string]string{"data": "kv", "uuid": u, "lo": klo, "hi": khi}, &res)
-							if err != nil {
-								return nil, false, err
-							}
-							ok := res.E1 == "" && res.E2 == "" && res.E3 == "" && res.E4 == "" &&
-								strsEqual(res.Keys, wantK) && strsEqual(res.Sent, wantK) && len(res.GetRange) == len(wantKV) && len(res.Proc) == len(wantKV)
-							if ok {
-								for i := range wantKV {
-									if res.GetRange[i].K != wantKV[i].K || res.GetRange[i].V != wantKV[i].V || res.Proc[i].K != wantKV[i].K || res.Proc[i].V != wantKV[i].V {
-										ok = false
-									}
+							if reads[j] > 0 {
+								wantK = append(wantK, famKey(f, name))
+								wantKV = append(wantKV, kvp{famKey(f, name), c05ValueOf(f, reads[j])})
+								wantJSON = append(wantJSON, kvp{famKey(f, name), c05JSONOf(f, reads[j])})
+								if c05ValueOf(f, reads[j]) != "" {
+									devKV = append(devKV, kvp{famKey(f, name), c05ValueOf(f, reads[j])})
+									devJSON = append(devJSON, kvp{famKey(f, name), c05JSONOf(f, reads[j])})
 								}
 							}
-							return res, ok, nil
-						}},
-					}
-					picks := []int{sel, 3 + (f+v+lo+hi)%2}
-					if lo == 1 && hi == len(c05Endpoints) {
-						picks = []int{0, 1, 2, 3, 4}
-					}
-					for _, pi := range picks {
-						vr := variants[pi]
-						got, ok, err := vr.run()
-						must(err, vr.name)
-						atomic.AddInt64(nq, 1)
-						if !ok {
-							report(c05Divergence{Kind: "range", Case: rc, Node: v, Interval: iv, Endpoint: vr.name, Expected: wantKV, Observed: got})
+						}
+						if conflict {
+							continue // a conflicted key in the interval may make the range fail
+						}
+						klo, khi := famKey(f, c05Endpoints[lo-1]), famKey(f, c05Endpoints[hi-1])
+						iv := [2]string{klo, khi}
+						inverted := hi < lo
+						type variant struct {
+							name string
+							run  func() (interface{}, bool, error)
+						}
+						httpKV := func(q string, parse func([]byte) ([]kvp, error), want []kvp) func() (interface{}, bool, error) {
+							return func() (interface{}, bool, error) {
+								r, err := s.N.HTTP("GET", "/api/node/"+u+"/"+inst+"/keyrangevalues/"+klo+"/"+khi+q, nil)
+								if err != nil {
+									return nil, false, err
+								}
+								if r.Status != 200 {
+									// an inverted interval may be refused; it must not answer with keys
+									return fmt.Sprintf("status %d %s", r.Status, r.Bytes()), inverted && r.Status >= 400 && r.Status < 500, nil
+								}
+								got, perr := parse(r.Bytes())
+								if perr != nil {
+									return fmt.Sprintf("unparsable: %v", perr), false, nil
+								}
+								if !kvpEqual(got, want) && len(want) > 0 && run.KnownActive(c05EmptyValue) &&
+									((&want[0] == &wantKV[0] && kvpEqual(got, devKV)) || (len(wantJSON) > 0 && &want[0] == &wantJSON[0] && kvpEqual(got, devJSON))) {
+									run.ReportKnown(c05EmptyValue)
+									return got, true, nil
+								}
+								return got, kvpEqual(got, want), nil
+							}
+						}
+						variants := []variant{
+							{"keyrange", func() (interface{}, bool, error) {
+								r, err := s.N.HTTP("GET", "/api/node/"+u+"/"+inst+"/keyrange/"+klo+"/"+khi, nil)
+								if err != nil {
+									return nil, false, err
+								}
+								if r.Status != 200 {
+									return fmt.Sprintf("status %d", r.Status), inverted && r.Status >= 400 && r.Status < 500, nil
+								}
+								got, perr := parseJSONKeys(r.Bytes())
+								if perr != nil {
+									return string(r.Bytes()), false, nil
+								}
+								return got, strsEqual(got, wantK), nil
+							}},
+							{"keyrangevalues(protobuf)", httpKV("", parseProtoKVs, wantKV)},
+							{"keyrangevalues?json=true", httpKV("?json=true", parseJSONObjOrdered, wantJSON)},
+							{"keyrangevalues?tar=true", httpKV("?tar=true", parseTar, wantKV)},
+							{"store-range-methods", func() (interface{}, bool, error) {
+								var res struct {
+									GetRange []struct{ K, V string } `json:"getrange"`
+									Keys     []string               `json:"keys"`
+									Sent     []string               `json:"sent"`
+									Proc     []struct{ K, V string } `json:"proc"`
+									E1       string                 `json:"getrange_err"`
+									E2       string                 `json:"keys_err"`
+									E3       string                 `json:"sent_err"`
+									E4       string                 `json:"proc_err"`
+								}
+								rArgs := map[string]string{"data": inst, "uuid": u, "lo": klo, "hi": khi}
+								if rawOnly {
+									rArgs["raw_ctx"] = "true"
+									run.Add("store_range_methods_with_unversioned_context", 1)
+								}
+								err := s.N.Call("kv.range", rArgs, &res)
+								if err != nil {
+									return nil, false, err
+								}
+								ok := res.E1 == "" && res.E2 == "" && res.E3 == "" && res.E4 == "" &&
+									strsEqual(res.Keys, wantK) && strsEqual(res.Sent, wantK) && len(res.GetRange) == len(wantKV) && len(res.Proc) == len(wantKV)
+								if ok {
+									for i := range wantKV {
+										if res.GetRange[i].K != wantKV[i].K || res.GetRange[i].V != wantKV[i].V || res.Proc[i].K != wantKV[i].K || res.Proc[i].V != wantKV[i].V {
+											ok = false
+										}
+									}
+								}
+								return res, ok, nil
+							}},
+							{"keyrangevalues?jsontar=true", httpKV("?jsontar=true", parseTar, wantKV)},
+							{"keyrangevalues?json=true&check=true", httpKV("?json=true&check=true", parseJSONObjOrdered, wantJSON)},
+						}
+						// rotate the endpoint variants so that each (case, node, interval) runs two of them
+						picks := []int{(f + v + lo*7 + hi) % 3, 3 + (f+v+lo+hi)%4}
+						if lo == 1 && hi == len(c05Endpoints) {
+							picks = []int{0, 1, 2, 3, 4, 5, 6}
+						}
+						if rawOnly {
+							picks = []int{4}
+						}
+						for _, pi := range picks {
+							vr := variants[pi]
+							got, ok, err := vr.run()
+							must(err, vr.name)
+							atomic.AddInt64(nq, 1)
+							if inverted {
+								run.Add("inverted_interval_queries", 1)
+							}
+							if vi == 1 {
+								run.Add("range_queries_on_unversioned_instance", 1)
+							}
+							if !ok {
+								report(c05Divergence{Kind: "range", Case: rc, Node: v, Interval: iv, Endpoint: inst + " " + vr.name, Expected: wantKV, Observed: got})
+							}
 						}
 					}
 				}
-			}
-			// GET keyvalues on the three keys (json): found keys must carry their value
-			if (f+v)%4 == 0 {
-				body, _ := json.Marshal([]string{famKey(f, "a"), famKey(f, "ab"), famKey(f, "b")})
-				r, err := s.N.HTTP("GET", "/api/node/"+u+"/kv/keyvalues?json=true", body)
-				must(err, "keyvalues")
-				atomic.AddInt64(nq, 1)
-				conflict := reads[0] == -1 || reads[1] == -1 || reads[2] == -1
-				if !conflict {
-					got, perr := parseJSONObjOrdered(r.Bytes())
-					ok := r.Status == 200 && perr == nil && len(got) == 3
-					if ok {
-						for j := range names {
-							want := "{}"
-							if reads[j] > 0 {
-								want = c05Value(reads[j])
-							}
-							if got[j].V != want {
-								ok = false
-							}
+				// GET keyvalues on the three keys in its four formats: a found key carries its value, a key
+				// that is not found is listed empty
+				if !rawOnly && (f+v)%2 == 0 && reads[0] != -1 && reads[1] != -1 && reads[2] != -1 {
+					ks := []string{famKey(f, "a"), famKey(f, "ab"), famKey(f, "b")}
+					jbody, _ := json.Marshal(ks)
+					pbody, _ := pb.Marshal(&proto.Keys{Keys: ks})
+					var want, wantJ []kvp
+					for j := range names {
+						if reads[j] > 0 {
+							want = append(want, kvp{ks[j], c05ValueOf(f, reads[j])})
+							wantJ = append(wantJ, kvp{ks[j], c05JSONOf(f, reads[j])})
+						} else {
+							want = append(want, kvp{ks[j], ""})
+							wantJ = append(wantJ, kvp{ks[j], "{}"})
 						}
 					}
-					if !ok {
-						report(c05Divergence{Kind: "keyvalues", Case: rc, Node: v, Endpoint: "keyvalues?json=true", Expected: reads, Observed: string(r.Bytes())})
+					type kvsVariant struct {
+						q     string
+						body  []byte
+						parse func([]byte) ([]kvp, error)
+						want  []kvp
+					}
+					kvsVariants := []kvsVariant{{"?json=true", jbody, parseJSONObjOrdered, wantJ}, {"?tar=true", jbody, parseTar, want},
+						{"?jsontar=true", jbody, parseTar, want}, {"", pbody, parseProtoKVs, want}, {"?json=true&check=true", jbody, parseJSONObjOrdered, wantJ}}
+					kv := kvsVariants[((f+v)/2)%len(kvsVariants)]
+					r, err := s.N.HTTP("GET", "/api/node/"+u+"/"+inst+"/keyvalues"+kv.q, kv.body)
+					must(err, "keyvalues")
+					atomic.AddInt64(nq, 1)
+					got, perr := kv.parse(r.Bytes())
+					if r.Status != 200 || perr != nil || !kvpEqual(got, kv.want) {
+						report(c05Divergence{Kind: "keyvalues", Case: rc, Node: v, Endpoint: inst + "/keyvalues" + kv.q, Expected: kv.want, Observed: fmt.Sprintf("%d %v %q", r.Status, perr, r.Bytes())})
 					}
 				}
 			}
 		}
 	}
-	// whole-space listing: GET keys
-	for v := 1; v <= n; v++ {
-		if conflictAny[v-1] {
-			continue
-		}
-		u := s.UUIDs[base+v-1]
-		r, err := s.N.HTTP("GET", "/api/node/"+u+"/kv/keys", nil)
-		must(err, "GET keys")
-		atomic.AddInt64(nq, 1)
-		got, perr := parseJSONKeys(r.Bytes())
-		want := append([]string(nil), allKeysWant[v-1]...)
-		sort.Strings(want)
-		if r.Status != 200 || perr != nil || !strsEqual(got, want) {
-			report(c05Divergence{Kind: "keys", Node: v, Endpoint: "keys", Expected: want, Observed: got, Case: &rangeCase{Par: par}})
+	// whole-space listings: GET keys, and the store's range methods over the whole key class
+	for _, view := range views {
+		for v := 1; v <= n; v++ {
+			if view.conflict[v-1] {
+				continue
+			}
+			u := s.UUIDs[base+v-1]
+			want := append([]string(nil), view.allKeys[v-1]...)
+			sort.Strings(want)
+			if view.inst != "kvr" {
+				r, err := s.N.HTTP("GET", "/api/node/"+u+"/"+view.inst+"/keys", nil)
+				must(err, "GET keys")
+				atomic.AddInt64(nq, 1)
+				got, perr := parseJSONKeys(r.Bytes())
+				if r.Status != 200 || perr != nil || !strsEqual(got, want) {
+					report(c05Divergence{Kind: "keys", Node: v, Endpoint: view.inst + "/keys", Expected: want, Observed: got, Case: &rangeCase{Par: par}})
+				}
+			}
+			var res struct {
+				GetRange []struct{ K, V string } `json:"getrange"`
+				Keys     []string               `json:"keys"`
+				Sent     []string               `json:"sent"`
+				Proc     []struct{ K, V string } `json:"proc"`
+				E1       string                 `json:"getrange_err"`
+				E2       string                 `json:"keys_err"`
+				E3       string                 `json:"sent_err"`
+				E4       string                 `json:"proc_err"`
+			}
+			wArgs := map[string]string{"data": view.inst, "uuid": u, "whole": "true"}
+			if view.inst == "kvr" {
+				wArgs["raw_ctx"] = "true"
+			}
+			must(s.N.Call("kv.range", wArgs, &res), "kv.range whole")
+			atomic.AddInt64(nq, 1)
+			gr := make([]string, len(res.GetRange))
+			for i, x := range res.GetRange {
+				gr[i] = x.K
+			}
+			pr := make([]string, len(res.Proc))
+			for i, x := range res.Proc {
+				pr[i] = x.K
+			}
+			if res.E1 != "" || res.E2 != "" || res.E3 != "" || res.E4 != "" || !strsEqual(res.Keys, want) || !strsEqual(res.Sent, want) || !strsEqual(gr, want) || !strsEqual(pr, want) {
+				report(c05Divergence{Kind: "whole-space", Node: v, Endpoint: view.inst + " store range methods over the whole key class", Expected: want, Observed: res, Case: &rangeCase{Par: par}})
+			}
+			if view.inst != "kvr" {
+				// keyvalue.StreamKV: the same pairs as a stream
+				var st []struct{ K, V string }
+				must(s.N.Call("kv.stream", map[string]string{"data": view.inst, "uuid": u}, &st), "kv.stream")
+				atomic.AddInt64(nq, 1)
+				ok := len(st) == len(res.GetRange)
+				for i := 0; ok && i < len(st); i++ {
+					ok = st[i].K == res.GetRange[i].K && st[i].V == res.GetRange[i].V
+				}
+				// (under the known finding a key with an empty value is left out of the stream: kv.V == nil)
+				if !ok && run.KnownActive(c05EmptyValue) {
+					var nonEmpty []struct{ K, V string }
+					for _, x := range res.GetRange {
+						if x.V != "" {
+							nonEmpty = append(nonEmpty, x)
+						}
+					}
+					ok = len(st) == len(nonEmpty)
+					for i := 0; ok && i < len(st); i++ {
+						ok = st[i] == nonEmpty[i]
+					}
+					if ok {
+						run.ReportKnown(c05EmptyValue)
+					}
+				}
+				if !ok {
+					report(c05Divergence{Kind: "whole-space", Node: v, Endpoint: view.inst + " StreamKV", Expected: res.GetRange, Observed: st, Case: &rangeCase{Par: par}})
+				}
+			}
 		}
 	}
 	run.Eval(fmt.Sprintf("shape%d|%v", shapeIdx, par))
+}
+
+// c05Scale is the one sub-case the 3-key families cannot hold: a DeleteRange that spans several
+// of the store's write batches (it commits every 1000 keys), a DeleteRange over the whole key
+// space, a write over the version's own tombstone afterwards, and the same on an unversioned
+// instance.  The claim is KVRange.DeleteRangeClaims with the interval expanded to concrete keys:
+// exactly the keys of the interval are absent at d and its descendants, everything else and every
+// other version is unchanged.
+func c05Scale(c *Ctx, run *ev.Run, nq *int64) {
+	n := c.StartNode(node.Config{NoLog: true})
+	defer c.DropNode(n)
+	const total, lo, hi = 2600, 100, 2599
+	key := func(i int) string { return fmt.Sprintf("s%05d", i) }
+	var script []string
+	do := func(method, url string, body []byte) node.Resp {
+		r, err := n.HTTP(method, url, body)
+		must(err, method+" "+url)
+		script = append(script, fmt.Sprintf("%s %s (%d bytes) -> %d", method, url, len(body), r.Status))
+		atomic.AddInt64(nq, 1)
+		return r
+	}
+	okOrInfra := func(r node.Resp, what string) {
+		if r.Status != 200 {
+			infra("%s: %d %s", what, r.Status, r.Bytes())
+		}
+	}
+	r := do("POST", "/api/repos", []byte(`{"alias":"c05scale"}`))
+	var o struct{ Root, Child string }
+	if r.Status != 200 || json.Unmarshal(r.Bytes(), &o) != nil {
+		infra("new repo: %d %s", r.Status, r.Bytes())
+	}
+	root := o.Root
+	okOrInfra(do("POST", "/api/repo/"+root+"/instance", []byte(`{"typename":"keyvalue","dataname":"kv"}`)), "instance kv")
+	okOrInfra(do("POST", "/api/repo/"+root+"/instance", []byte(`{"typename":"keyvalue","dataname":"kvu","versioned":"false"}`)), "instance kvu")
+	var batch proto.KeyValues
+	for i := 0; i < total; i++ {
+		batch.Kvs = append(batch.Kvs, &proto.KeyValue{Key: key(i), Value: []byte(fmt.Sprintf("\"x%d\"", i))})
+	}
+	body, _ := pb.Marshal(&batch)
+	okOrInfra(do("POST", "/api/node/"+root+"/kv/keyvalues", body), "POST keyvalues")
+	okOrInfra(do("POST", "/api/node/"+root+"/kvu/keyvalues", body), "POST keyvalues (unversioned)")
+	child := func(parent, br string) string {
+		okOrInfra(do("POST", "/api/node/"+parent+"/commit", []byte(`{}`)), "commit")
+		r := do("POST", "/api/node/"+parent+"/branch", []byte(fmt.Sprintf(`{"branch":%q}`, br)))
+		if r.Status != 200 || json.Unmarshal(r.Bytes(), &o) != nil {
+			infra("branch: %d %s", r.Status, r.Bytes())
+		}
+		return o.Child
+	}
+	report := func(kind, at string, exp, obs interface{}) {
+		run.Violation("c05", map[string]interface{}{"part": "scale", "kind": kind, "at": at, "expected": exp, "observed": obs, "script": script})
+	}
+	// expected key sets, by the claim
+	rangeKeys := func(from, to int, except func(int) bool) []string {
+		var ks []string
+		for i := from; i <= to; i++ {
+			if except == nil || !except(i) {
+				ks = append(ks, key(i))
+			}
+		}
+		return ks
+	}
+	checkKeys := func(at, inst, u string, want []string) {
+		r := do("GET", "/api/node/"+u+"/"+inst+"/keys", nil)
+		got, err := parseJSONKeys(r.Bytes())
+		if r.Status != 200 || err != nil || !strsEqual(got, want) {
+			report("keys", at, fmt.Sprintf("%d keys", len(want)), fmt.Sprintf("%d: %d keys (first difference near %s)", r.Status, len(got), firstStrDiff(got, want)))
+		}
+		r = do("GET", "/api/node/"+u+"/"+inst+"/keyrange/"+key(0)+"/"+key(99999), nil)
+		got, err = parseJSONKeys(r.Bytes())
+		if r.Status != 200 || err != nil || !strsEqual(got, want) {
+			report("keyrange", at, fmt.Sprintf("%d keys", len(want)), fmt.Sprintf("%d: %d keys (first difference near %s)", r.Status, len(got), firstStrDiff(got, want)))
+		}
+		in := map[string]bool{}
+		for _, k := range want {
+			in[k] = true
+		}
+		for _, i := range []int{0, lo - 1, lo, lo + 999, lo + 1000, lo + 1999, lo + 2000, hi, total - 1} {
+			if i >= total {
+				continue
+			}
+			r := do("GET", "/api/node/"+u+"/"+inst+"/key/"+key(i), nil)
+			if in[key(i)] != (r.Status == 200) || (!in[key(i)] && r.Status != 404) {
+				report("point-read", at+" "+inst+"/key/"+key(i), map[bool]int{true: 200, false: 404}[in[key(i)]], r.Status)
+			}
+		}
+	}
+	all := rangeKeys(0, total-1, nil)
+	c1 := child(root, "c1")
+	must(n.Call("kv.deleterange", map[string]string{"data": "kv", "uuid": c1, "lo": key(lo), "hi": key(hi)}, nil), "DeleteRange over 2500 keys")
+	outside := rangeKeys(0, total-1, func(i int) bool { return i >= lo && i <= hi })
+	checkKeys("child after DeleteRange of 2500 keys", "kv", c1, outside)
+	checkKeys("root (committed) after DeleteRange at the child", "kv", root, all)
+	// a write over the version's own tombstone
+	okOrInfra(do("POST", "/api/node/"+c1+"/kv/key/"+key(1000), []byte(`"again"`)), "POST key over own tombstone")
+	must(n.Call("kv.putrange", map[string]interface{}{"data": "kv", "uuid": c1, "keys": []string{key(1100), key(1101)}, "values": []string{`"pr"`, `"pr"`}}, nil), "PutRange over own tombstones")
+	again := rangeKeys(0, total-1, func(i int) bool { return i >= lo && i <= hi && i != 1000 && i != 1100 && i != 1101 })
+	checkKeys("child after writes over its own tombstones", "kv", c1, again)
+	if r := do("GET", "/api/node/"+c1+"/kv/key/"+key(1100), nil); r.Status != 200 || string(r.Bytes()) != `"pr"` {
+		report("point-read", "child, key written by PutRange over its tombstone", `200:"pr"`, fmt.Sprintf("%d:%s", r.Status, r.Bytes()))
+	}
+	// whole key space at a grandchild
+	c2 := child(c1, "c2")
+	must(n.Call("kv.deleterange", map[string]string{"data": "kv", "uuid": c2, "whole": "true"}, nil), "DeleteRange over the whole key space")
+	checkKeys("grandchild after DeleteRange of the whole key space", "kv", c2, nil)
+	checkKeys("child (committed) after the grandchild's DeleteRange", "kv", c1, again)
+	checkKeys("root after the grandchild's DeleteRange", "kv", root, all)
+	// unversioned: the keys are removed outright, every version reads the same
+	must(n.Call("kv.deleterange", map[string]string{"data": "kvu", "uuid": c2, "lo": key(lo), "hi": key(hi)}, nil), "DeleteRange (unversioned)")
+	checkKeys("unversioned instance after DeleteRange, at the grandchild", "kvu", c2, outside)
+	checkKeys("unversioned instance after DeleteRange, at the root", "kvu", root, outside)
+	run.Eval("scale|deleterange-2500|whole-space|own-tombstone|unversioned")
+	run.Set("scale_case", fmt.Sprintf("%d keys, DeleteRange over %d keys (3 store batches), whole-space DeleteRange, POST key and PutRange over own tombstones, unversioned DeleteRange", total, hi-lo+1))
+}
+
+func firstStrDiff(a, b []string) string {
+	for i := 0; i < len(a) && i < len(b); i++ {
+		if a[i] != b[i] {
+			return a[i] + " / " + b[i]
+		}
+	}
+	if len(a) > len(b) {
+		return a[len(b)]
+	}
+	if len(b) > len(a) {
+		return b[len(a)]
+	}
+	return "-"
 }
 
 func checkC05(c *Ctx) int {
@@ -481,6 +861,13 @@ func checkC05(c *Ctx) int {
 				rc.D = 1 + rng.Intn(n)
 				rc.Lo = 1 + rng.Intn(len(c05Endpoints))
 				rc.Hi = rc.Lo + rng.Intn(len(c05Endpoints)-rc.Lo+1)
+				if f%4 == 3 {
+					for j := 1; j <= 3; j++ {
+						if rng.Intn(2) == 0 {
+							rc.W = append(rc.W, j)
+						}
+					}
+				}
 			}
 			all = append(all, rc)
 			byShape[si] = append(byShape[si], rc)
@@ -516,15 +903,17 @@ func checkC05(c *Ctx) int {
 	parallel(len(shapes), workers, func(wi, si int) {
 		c05Shape(c, run, ws[wi].sess(), shapes[si], byShape[si], &nq, si)
 	})
+	c05Scale(c, run, &nq)
 	if len(all) > 0 {
 		run.Sample(all[1])
+		run.Sample(all[3])
 	}
 	run.Set("states", states)
 	run.Set("transitions", trans)
 	run.Set("traces_validated_against_impl", nq)
 	run.Set("evaluations", nq)
 	run.Set("cases", len(all))
-	run.Set("rule", fmt.Sprintf("case = DAG shape (all with 3 and 4 nodes; thorough: +300 seeded 5-node shapes) x seeded joint placement of 3 prefix-related keys (a, ab, b) x optional DeleteRange at a node; TLC (KVRange.tla) evaluates the point reads after the DeleteRange and checks the DeleteRange claims; the harness replays each case under its own key family and compares GET key, every interval over endpoints %v through keyrange / keyrangevalues (protobuf, json, tar) / store GetRange, KeysInRange, SendKeysInRange, ProcessRange, plus keys and keyvalues; distinct_nontrivial = distinct shapes", c05Endpoints))
+	run.Set("rule", fmt.Sprintf("case = DAG shape (all with 3 and 4 nodes; thorough: +300 seeded 5-node shapes) x seeded joint placement of 3 prefix-related keys (a, ab, b) x optional DeleteRange at a node; TLC (KVRange.tla) evaluates the point reads after the DeleteRange and checks the DeleteRange claims; the harness replays each case under its own key family and compares GET key, every interval over endpoints %v through keyrange / keyrangevalues (protobuf, json, tar) / store GetRange, KeysInRange, SendKeysInRange, ProcessRange, plus keys and keyvalues (json, tar, jsontar, protobuf, check=true) and the store methods over the whole key class; inverted intervals must return nothing; per family: writes through POST keyvalues batches, empty values, the same requests on an unversioned instance (oracle KVRange.UReads), writes at d after the DeleteRange through POST key or the store's PutRange (a put over the version's own tombstone; KVRange.RewriteClaims); one scale sub-case (c05Scale) expands the DeleteRange claim to 2500 concrete keys; distinct_nontrivial = distinct shapes", c05Endpoints))
 	run.Assume = []string{"range result is defined from the point reads (KVRange.Range)", "intervals containing a key in merge conflict are skipped (the range may fail there)"}
 	fmt.Printf("C05: %d shapes x %d families, %d queries compared in %.1fs; violations=%d\n", len(shapes), fams, nq, since(t0), run.Violations())
 	return run.Finish()
